@@ -129,7 +129,7 @@ InitHist == [hb |-> [a \in Actor |-> <<>>], he |-> [a \in Actor |-> <<>>], cb |-
              stopAcc |-> [a \in Actor |-> FALSE], late |-> [a \in Actor |-> {}],
              oksend |-> [a \in Actor |-> {}], okcall |-> {}, errcall |-> {},
              ann |-> [a \in Actor |-> <<>>], ab |-> [a \in Actor |-> <<>>],
-             qry |-> {}, ctxr |-> {}, upr |-> {}, abt |-> {}, upfail |-> [a \in Actor |-> FALSE], ninst |-> 0]
+             qry |-> {}, ctxr |-> {}, upr |-> {}, abt |-> {}, fires |-> {}, upfail |-> [a \in Actor |-> FALSE], ninst |-> 0]
 
 InitReg == [ent |-> <<>>, lock |-> "free"]
 
@@ -446,7 +446,9 @@ DropLoop(ar, pc, res, why) ==
   [ar EXCEPT !.pc = pc, !.rx = "closed", !.mq = <<>>, !.parked = <<>>, !.curp = NoPayload, !.scr = <<>>, !.ip = 0,
              !.cbk = "none", !.tdl = -1, !.sdl = -1, !.result = res, !.why = why,
              !.notif = IF @ = "armed" THEN "dropped" ELSE @]
-AbortTimersOf(a) == [i \in DOMAIN tmr |-> IF tmr[i].a = a /\ tmr[i].st \notin {"ended"} THEN [tmr[i] EXCEPT !.st = "aborted", !.hold = NoHold] ELSE tmr[i]]
+\* Context::drop aborts the timer tasks (context.rs:71-77); an aborted task still owns what its future
+\* holds (an upgraded Sender during a parked send) until it is polled again and ends
+AbortTimersOf(a) == [i \in DOMAIN tmr |-> IF tmr[i].a = a /\ tmr[i].st \notin {"ended"} THEN [tmr[i] EXCEPT !.st = "aborted"] ELSE tmr[i]]
 
 HAbandon(H, a) == IF act[a].pc = "handling" THEN [H EXCEPT !.ab = [@ EXCEPT ![a] = Append(@, act[a].curp.m)]] ELSE H
 \* <<actor, message, start of the invocation, time of abandonment>>
@@ -479,6 +481,8 @@ CtxSubmit(a, k) ==    \* Context::stop / restart (context.rs:82-88, 299-305): up
      /\ UNCHANGED <<hnd, cli, rsp, tmr, reg, now>>
 CtxSubmitOk(a) == FoHeld(a) /\ act[a].rx = "open"
 
+TimerKinds == {"interval", "interval_with", "delayed_send", "delayed_exec"}
+TimerName(a, e) == e.s \o "." \o ToString(act[a].inc)    \* a restarted `started` registers afresh
 ScriptStep(a) ==
   LET e == CurEff(a) IN
   /\ InScript(a) /\ ~ScriptDone(a)
@@ -494,6 +498,12 @@ ScriptStep(a) ==
                  /\ UNCHANGED <<hnd, cli, rsp, tmr, reg, now, hst>>
        [] e.e = "ctx_stop"    -> CtxSubmit(a, "stop")
        [] e.e = "ctx_restart" -> CtxSubmit(a, "restart")
+       [] e.e \in TimerKinds ->      \* Context::interval / interval_with / delayed_send / delayed_exec (context.rs:218-297)
+            /\ TimerName(a, e) \notin DOMAIN tmr
+            /\ tmr' = (TimerName(a, e) :> [a |-> a, kind |-> e.e, period |-> e.n, dl |-> -1, st |-> "new", inc |-> act[a].inc,
+                                k |-> 0, t0 |-> -1, hold |-> NoHold]) @@ tmr
+            /\ act' = [act EXCEPT ![a].ip = @ + 1]
+            /\ UNCHANGED <<hnd, cli, rsp, reg, now, hst>>
        [] e.e = "panic" -> Fail(a, "panic")
        [] e.e = "err" -> act[a].pc \in {"started", "rs_started"} /\ Fail(a, "startErr")
        [] OTHER -> FALSE
@@ -629,12 +639,65 @@ LoopCanStep(a) ==
     [] OTHER -> FALSE
 
 -----------------------------------------------------------------------------
+(* Timer tasks (context.rs:218-297): abortable tasks that sleep first, then submit through a  *)
+(* WeakSender.  interval uses the forcing path, interval_with / delayed_send the waiting path. *)
+
+TickPayload(i, k) == [k |-> "task", m |-> <<i, k>>, rs |-> "none", scr |-> <<>>, src |-> "timer"]
+
+\* first poll: the sleep is created now
+TimerStart(i) ==
+  /\ tmr[i].st = "new"
+  /\ tmr' = [tmr EXCEPT ![i] = [@ EXCEPT !.st = "sleeping", !.dl = now + tmr[i].period, !.t0 = now]]
+  /\ UNCHANGED <<act, hnd, cli, rsp, reg, now, hst>>
+
+TimerDue(i) == tmr[i].st = "sleeping" /\ now >= tmr[i].dl
+TimerFire(i) ==
+  LET a == tmr[i].a  k == tmr[i].k + 1  kind == tmr[i].kind
+      ok == CanUpgrade(a, "wsender") /\ act[a].rx = "open"
+      H1 == [hst EXCEPT !.fires = @ \cup {<<i, k, now, ok \/ kind = "delayed_exec">>}]
+  IN
+  /\ TimerDue(i)
+  /\ CASE kind = "interval" ->
+            IF ok THEN /\ act' = [act EXCEPT ![a] = Enq(@, TickPayload(i, k), DEAD)]
+                       /\ tmr' = [tmr EXCEPT ![i] = [@ EXCEPT !.k = k, !.dl = now + tmr[i].period]]
+                       /\ hst' = HAccepted(H1, a, <<i, k>>)
+                  ELSE /\ tmr' = [tmr EXCEPT ![i] = [@ EXCEPT !.k = k, !.st = "ended", !.dl = -1]]
+                       /\ hst' = H1 /\ act' = act
+       [] kind \in {"interval_with", "delayed_send"} ->
+            IF ok THEN /\ act' = [act EXCEPT ![a] = Enq(@, TickPayload(i, k), <<i, k>>)]
+                       /\ tmr' = [tmr EXCEPT ![i] = [@ EXCEPT !.k = k, !.st = "flush", !.dl = -1, !.hold = [tx |-> TRUE, fo |-> TRUE, raw |-> TRUE]]]
+                       /\ hst' = HAccepted(H1, a, <<i, k>>)
+                  ELSE /\ tmr' = [tmr EXCEPT ![i] = [@ EXCEPT !.k = k, !.st = "ended", !.dl = -1]]
+                       /\ hst' = H1 /\ act' = act
+       [] kind = "delayed_exec" ->
+            /\ tmr' = [tmr EXCEPT ![i] = [@ EXCEPT !.k = k, !.st = "ended", !.dl = -1]]
+            /\ hst' = H1 /\ act' = act
+  /\ UNCHANGED <<hnd, cli, rsp, reg, now>>
+
+TimerFlushReady(i) == tmr[i].st = "flush" /\ (act[tmr[i].a].rx = "closed" \/ ~IsParked(act[tmr[i].a], <<i, tmr[i].k>>))
+TimerFlushed(i) ==
+  /\ TimerFlushReady(i)
+  /\ tmr' = [tmr EXCEPT ![i] = IF @.kind = "interval_with"
+                                THEN [@ EXCEPT !.st = "sleeping", !.dl = now + tmr[i].period, !.hold = NoHold]
+                                ELSE [@ EXCEPT !.st = "ended", !.hold = NoHold]]
+  /\ UNCHANGED <<act, hnd, cli, rsp, reg, now, hst>>
+
+\* the aborted task is polled once more: Abortable returns Aborted, the future is dropped
+TimerEnd(i) ==
+  /\ tmr[i].st = "aborted"
+  /\ tmr' = [tmr EXCEPT ![i] = [@ EXCEPT !.st = "ended", !.dl = -1, !.hold = NoHold]]
+  /\ UNCHANGED <<act, hnd, cli, rsp, reg, now, hst>>
+
+TimerStep(i) == TimerStart(i) \/ TimerFire(i) \/ TimerFlushed(i) \/ TimerEnd(i)
+TimerCanStep(i) == tmr[i].st \in {"new", "aborted"} \/ TimerDue(i) \/ TimerFlushReady(i)
+
+-----------------------------------------------------------------------------
 (* Clock                                                                    *)
 
 Deadlines == {act[a].sdl : a \in {b \in Actor : act[b].sdl >= 0}}
              \cup {act[a].tdl : a \in {b \in Actor : act[b].tdl >= 0}}
              \cup {cli[c].dl : c \in {d \in Client : cli[d].stage = "sleep"}}
-             \cup {tmr[i].dl : i \in {j \in DOMAIN tmr : tmr[j].st = "sleeping"}}
+             \cup {tmr[i].dl : i \in {j \in DOMAIN tmr : tmr[j].st \in {"sleeping", "aborted"} /\ tmr[j].dl >= 0}}
 Pending == {d \in Deadlines : d > now}
 MinOf(S) == CHOOSE x \in S : \A y \in S : x <= y
 Advance == /\ Pending # {}
@@ -649,6 +712,7 @@ Advance == /\ Pending # {}
 TaskCanStepW(t, more) ==
   IF t \in Actor THEN LoopCanStep(t)
   ELSE IF t \in Client THEN (IF cli[t].stage = "idle" THEN more ELSE ClientContEnabled(t))
+  ELSE IF t \in DOMAIN tmr THEN TimerCanStep(t)
   ELSE FALSE
 
 \* ---- run-to-block discipline of a cooperative executor
@@ -658,5 +722,6 @@ RunLoop(a) == /\ cur = a /\ ~yl /\ LoopStep(a) /\ cur' = cur
               /\ yl' = (IsYieldStep(a) /\ act'[a].pc = act[a].pc /\ act'[a].ip = act[a].ip + 1)
 RunIssue(c, o) == cur = c /\ ~yl /\ Issue(c, o) /\ cur' = cur /\ yl' = (o.op = "yield")
 RunCont(c) == cur = c /\ ~yl /\ ClientCont(c) /\ UNCHANGED <<cur, yl>>
+RunTimer(i) == cur = i /\ ~yl /\ TimerStep(i) /\ UNCHANGED <<cur, yl>>
 
 =============================================================================
